@@ -20,7 +20,9 @@ def normalise_rows(init, rows):
     out = []
     prev = init
     for p, v in rows:
-        if veq(v, prev, Fraction(0)) if not (isinstance(v, str) or isinstance(prev, str)) else v == prev:
+        # float noise: pieces whose values agree to 2^-30 relative are one piece (non-dyadic quotients that are equal as
+        # rationals may differ in the last bit after further float arithmetic)
+        if veq(v, prev) if not (isinstance(v, str) or isinstance(prev, str)) else v == prev:
             continue
         out.append((p, v))
         prev = v
